@@ -413,7 +413,8 @@ fn format(opt: opt::Opt) -> Result<i32> {
                                     let stderr = stderr();
                                     let mut handle = stderr.lock();
                                     match handle.write_all(structured_err.to_string().as_bytes()) {
-                                        Ok(_) => (),
+                                        // The error bypasses the logger, so set the exit code here
+                                        Ok(_) => EXIT_CODE.store(2, Ordering::SeqCst),
                                         Err(err) => {
                                             error!("could not output to stdout: {:#}", err)
                                         }
